@@ -328,6 +328,7 @@ class Sink:
     def __init__(self, depth):
         self.items = []
         self.depth = depth
+        self.nexts = []   # path conditions of `.next()` calls on this (SET / SET OF / SEQUENCE) writer
 
 
 class Act:
@@ -1150,6 +1151,7 @@ class Interp:
         if callee.endswith("::next") and ("DERWriterSeq" in callee or "DERWriterSet" in callee):
             w = core(args[0])
             if isinstance(w, WriterV):
+                w.sink.nexts.append((self.cur_cond(w.sink.depth), tuple(e[1] for e in self.ctx[w.sink.depth:] if e[0] == "rep"), n.get("sp")))
                 return WriterV("w", w.sink)
             return Unknown("next on non-writer")
         if callee.startswith("yasna::DERWriter::") or callee.startswith("yasna::writer::DERWriter::"):
@@ -1165,7 +1167,7 @@ class Interp:
                     rv = self.call_closure(cl, [WriterV(kind, child)])
                 else:
                     child.items.append({"t": "Opaque", "what": "closure value %s" % cl.r(), "sp": sp})
-                self.emit(w.sink, {"t": CONSTRUCTED[last], "c": child.items, "sp": sp, "fn": self.cur_fn()})
+                self.emit(w.sink, {"t": CONSTRUCTED[last], "c": child.items, "sp": sp, "fn": self.cur_fn(), "nexts": child.nexts})
                 return rv
             if last in ("write_tagged", "write_tagged_implicit"):
                 child = Sink(len(self.ctx))
